@@ -26,7 +26,7 @@ type LoopInfo struct {
 
 func NewFV(eng *Engine, fn *ssa.Function, spec *FuncSpec) *FV {
 	fv := &FV{eng: eng, fn: fn, spec: spec, decls: NewDecls(), usedSpecFns: map[string]bool{},
-		strConsts: map[string]string{}, unmodelled: map[string]bool{}, inlined: map[string]bool{}, uncontracted: map[string]bool{},
+		strConsts: map[string]string{}, unmodelled: map[string]bool{}, inlined: map[string]bool{}, uncontracted: map[string]bool{}, globalsRead: map[string]bool{},
 		calleesByContract: map[string]bool{}, assumptions: map[string]bool{}, implUsed: map[string]types.Type{},
 		sliceElems: map[string]string{}, hsUses: map[string][]heapUse{}, hsBusy: map[string]bool{}, hsUnfolded: map[*State]map[string]bool{}}
 	fv.short = funcKey(fn)
